@@ -240,6 +240,7 @@ type ReplayFile struct {
 	Property   string   `json:"property"`
 	Seed       uint64   `json:"seed"`
 	Tier       string   `json:"tier"`
+	Index      int      `json:"run_index"`
 	GOMAXPROCS int      `json:"gomaxprocs"`
 	WTape      []uint32 `json:"workload_tape"`
 	STape      []uint32 `json:"schedule_tape"`
@@ -425,7 +426,7 @@ func check(id, tier string) int {
 				next++
 				nmu.Unlock()
 				seed := mix(base, uint64(i))
-				r, err := execRun(bin, id, seed, tier, "", gmpFor(seed))
+				r, err := execRun(bin, id, seed, tier, "", gmpFor(seed), "-index", strconv.Itoa(i))
 				a.mu.Lock()
 				a.evals++
 				if err != nil {
@@ -509,7 +510,7 @@ func check(id, tier string) int {
 	var reported []string
 	for _, sig := range sigs {
 		r := a.violations[sig]
-		path, ok := minimiseAndConfirm(bin, id, tier, r)
+		path, ok := minimiseAndConfirm(bin, id, tier, r, a.violIdx[sig])
 		if !ok {
 			die(2, "violation %s (seed %d) did not reproduce from its replay file: harness defect", sig, r.Seed)
 		}
@@ -634,9 +635,9 @@ func tryTapes(bin string, rf ReplayFile, w, s []uint32, scratch string, n int) (
 	return r, true
 }
 
-func minimiseAndConfirm(bin, id, tier string, r *RunResult) (string, bool) {
+func minimiseAndConfirm(bin, id, tier string, r *RunResult, idx int) (string, bool) {
 	scratch := runTmp()
-	rf := ReplayFile{Property: id, Seed: r.Seed, Tier: tier, GOMAXPROCS: r.GOMAXPROCS, Signature: r.Sig, Detail: r.Detail}
+	rf := ReplayFile{Property: id, Seed: r.Seed, Tier: tier, Index: idx, GOMAXPROCS: r.GOMAXPROCS, Signature: r.Sig, Detail: r.Detail}
 	w, s := r.WTape, r.STape
 	rf.MinFrom = [2]int{len(w), len(s)}
 	budget := envInt("VERIF_MIN_BUDGET", 320)
